@@ -25,6 +25,9 @@ NPROC = int(os.environ.get('VERIF_NPROC', '16'))
 GUARD = 'PRETTYPRINTER_VERIF'
 
 MAX_STORED_VIOLATIONS = 40      # per chunk; all are counted
+PER_KIND = 3
+if os.environ.get('VERIF_DUMP_VIOLATIONS'):      # debugging aid: keep (almost) everything
+    MAX_STORED_VIOLATIONS, PER_KIND = 10 ** 6, 10 ** 6
 MAX_SAMPLES = 8
 
 
@@ -75,7 +78,7 @@ class Part:
         # keep the first few of every (kind, finding) so that small cases survive
         key = (kind, finding)
         have = sum(1 for v in self.violations if (v['kind'], v.get('finding')) == key)
-        if have < 3 and len(self.violations) < MAX_STORED_VIOLATIONS:
+        if have < PER_KIND and len(self.violations) < MAX_STORED_VIOLATIONS:
             self.violations.append({'kind': kind, 'case': case, 'detail': detail, 'finding': finding})
 
     def pack(self):
@@ -97,7 +100,7 @@ def merge(packed, into=None):
         for v in p['violations']:
             key = (v['kind'], v.get('finding'))
             have = sum(1 for w in agg.violations if (w['kind'], w.get('finding')) == key)
-            if have < 3:
+            if have < PER_KIND:
                 agg.violations.append(v)
     return agg
 
@@ -197,6 +200,9 @@ def finalize(res):
     with open(os.path.join(VERIF, 'evidence', res.prop + '.json'), 'w') as f:
         json.dump(ev, f, indent=1, sort_keys=True, default=repr)
         f.write('\n')
+    if os.environ.get('VERIF_DUMP_VIOLATIONS'):
+        with open(os.environ['VERIF_DUMP_VIOLATIONS'], 'w') as f:
+            json.dump(agg.violations, f, default=repr)
     print('%s tier=%s seed=%d evaluations=%d nontrivial=%d wall=%.1fs' % (
         res.prop, res.tier, res.seed, cov['evaluations'], cov['distinct_nontrivial'], ev['wall_s']))
     for k in ('states', 'transitions', 'traces_validated_against_impl', 'exhaustive'):
